@@ -155,6 +155,8 @@ Init ==
           k |-> <<>>,
           out |-> <<>>,
           st |-> "run",
+          mods |-> ("$main" :> [env |-> 2, st |-> "done", ex |-> <<>>]),   \* module name -> environment, load state, exported names
+          cur |-> "$main",     \* module whose body is running
           tb |-> <<>>,        \* activations at the latest raise, innermost first: [n |-> node where it stands, f |-> function name]
           steps |-> 0]
 
@@ -346,6 +348,9 @@ GetProp(m, obj, name, site) ==
       IF i = 0 THEN Throw(m, "RuntimeError", site)
       ELSE LET m1 == Alloc(m, Obj("bound", name, <<obj, m.heap[obj.n].sv[i]>>, 0, 0, 0, <<>>, <<>>, <<>>))
            IN Val(m1, R(LastObj(m1), "bound"))
+  ELSE IF obj.t = "ref" /\ obj.x = "modinst" THEN
+    LET i == IndexOf(m.heap[obj.n].ks, name) IN
+      IF i = 0 THEN Throw(m, "RuntimeError", site) ELSE Val(m, m.heap[obj.n].xs[i])
   ELSE Throw(m, "RuntimeError", site)
 
 SetProp(m, obj, name, v, site) ==
@@ -366,6 +371,9 @@ Invoke(m, obj, name, args, site) ==
   ELSE IF obj.t = "ref" /\ obj.x = "class" THEN
     LET i == IndexOf(m.heap[obj.n].sk, name) IN
       IF i = 0 THEN Throw(m, "PropertyError", site) ELSE Enter(m, m.heap[obj.n].sv[i].n, obj, args, site)
+  ELSE IF obj.t = "ref" /\ obj.x = "modinst" THEN
+    LET i == IndexOf(m.heap[obj.n].ks, name) IN
+      IF i = 0 THEN Throw(m, "PropertyError", site) ELSE Call(m, m.heap[obj.n].xs[i], args, site)
   ELSE IF obj.t = "ref" /\ obj.x = "list" /\ name = "len" /\ args = <<>> THEN Val(m, N(Len(m.heap[obj.n].xs)))
   ELSE IF obj.t = "ref" /\ obj.x = "list" /\ name = "push" /\ Len(args) >= 1 THEN
          Val([m EXCEPT !.heap[obj.n].xs = @ \o args], Nil)
@@ -409,6 +417,39 @@ EvalNode(m, n) ==
     [] OTHER -> [m EXCEPT !.st = "model-error:ev:" \o k, !.ctl = Ctl("halt", 0, Nil)]
 
 \* ---------------------------------------------------------------------------
+\* Modules (C17): a module body runs once, in its own environment whose parent is the global environment; an import
+\* binds the module instance (a snapshot of the exported values) or the requested exported values.
+RECURSIVE BindSyms(_, _, _, _, _)
+BindSyms(m, n, target, pairs, i) ==
+  IF i > Len(pairs) THEN Nxt(m)
+  ELSE LET name == pairs[i] alias == pairs[i + 1]
+           me == m.mods[target]
+           loc == Lookup(m, me.env, name)
+       IN IF IndexOf(me.ex, name) = 0 \/ loc = 0 THEN Throw(m, "ImportError", n)
+          ELSE BindSyms(Declare(m, m.env, alias, m.store[loc]), n, target, pairs, i + 2)
+
+Import(m, n) ==
+  LET nd == Node(n) target == nd.s IN
+  IF target \notin DOMAIN P.mods THEN Throw(m, "ImportError", n)
+  ELSE IF P.mods[target] = 0 THEN
+    \* the file exists but does not compile: diagnostics, nothing of it runs, the program fails
+    [m EXCEPT !.st = "import-compile-error", !.ctl = Ctl("halt", 0, Nil)]
+  ELSE IF target \notin DOMAIN m.mods THEN
+    \* first import: run the body, then come back to this statement
+    LET m1 == NewEnv(m, 1)
+        e == LastEnv(m1)
+        m2 == [m1 EXCEPT !.mods = (target :> [env |-> e, st |-> "loading", ex |-> <<>>]) @@ @]
+        m3 == PushK(m2, Frame("modload", n, 0, <<V("str", 0, m.cur, <<>>)>>, m.env))
+    IN [Ex(m3, P.mods[target]) EXCEPT !.env = e, !.cur = target]
+  ELSE IF m.mods[target].st = "loading" /\ nd.s2 = "syms" THEN Throw(m, "ImportError", n)   \* (cycles are not generated)
+  ELSE
+    LET me == m.mods[target] IN
+    IF nd.s2 = "syms" THEN BindSyms(m, n, target, nd.fields, 1)
+    ELSE LET vals == [i \in 1 .. Len(me.ex) |-> m.store[Lookup(m, me.env, me.ex[i])]]
+             m1 == Alloc(m, Obj("modinst", target, vals, 0, 0, 0, me.ex, <<>>, <<>>))
+         IN Nxt(Declare(m1, m.env, nd.fields[1], R(LastObj(m1), "modinst")))
+
+\* ---------------------------------------------------------------------------
 \* Execute statement node n
 ExecNode(m, n) ==
   LET nd == Node(n) k == nd.k IN
@@ -448,6 +489,9 @@ ExecNode(m, n) ==
          ELSE [PushK(m, Frame("classsuper", n, 0, <<>>, m.env)) EXCEPT !.ctl = Ctl("val", 0, R(1, "class"))]
     [] k = "try" ->
          Ex(PushK(m, Frame("try", n, 0, <<>>, m.env)), Kid(n, 1))
+    [] k = "export" ->
+         Ex(PushK(m, Frame("export", n, 0, <<>>, m.env)), Kid(n, 1))
+    [] k = "import" -> Import(m, n)
     [] OTHER -> [m EXCEPT !.st = "model-error:ex:" \o k, !.ctl = Ctl("halt", 0, Nil)]
 
 \* ---------------------------------------------------------------------------
@@ -622,6 +666,12 @@ NextAt(m) ==
                 Ex([PushK(m0, [fr EXCEPT !.i = @ + 1]) EXCEPT !.store[loc] = fr.vs[fr.i + 1], !.env = fr.e], Kid(n, 2))
          ELSE [Nxt(PopK(m0)) EXCEPT !.env = TopK(m0).e]       \* pop the loop marker, restore the env
     [] f = "try" -> Nxt(m0)                               \* try block completed: handler deactivated
+    [] f = "export" ->
+         LET name == Node(Kid(n, 1)).s IN
+           Nxt([m0 EXCEPT !.mods[m0.cur].ex = IF IndexOf(@, name) = 0 THEN Append(@, name) ELSE @])
+    [] f = "modload" ->
+         \* the imported body has finished: back to the importer, which now finds the module loaded
+         [Ex([m0 EXCEPT !.mods[m0.cur].st = "done"], n) EXCEPT !.env = fr.e, !.cur = fr.vs[1].x]
     [] f = "catch" -> [Nxt(m0) EXCEPT !.env = fr.e]
     [] f = "call" ->
          \* fell off the end of a function body: nil (an initialiser yields the instance)
